@@ -1,5 +1,5 @@
 From Coq Require Import List Arith Bool String.
-From Wire Require Import Sets Acyclic Solve Names Front Exec Model Emit Cli CopyAst ModelThms NamesThms Bridge ProcessWF.
+From Wire Require Import Sets Acyclic Solve Names Front Exec Model Emit Cli CopyAst ModelThms NamesThms Bridge ProcessWF Perm PermModel.
 Import ListNotations.
 
 (* The property theorems.  This file contains nothing but statements closed by [exact lemma] and the
@@ -75,6 +75,27 @@ Theorem C10_phase_order_independent : forall (A : Type) (ip bp : nat -> A -> A) 
   exists pm2, insert_all es' pm [] = (pm2, []) /\ map_eq A pm1 pm2.
 Proof. exact insert_all_perm. Qed.
 Print Assumptions C10_phase_order_independent.
+
+(* C10 (whole analysis): listing the items of the injector's set -- providers, struct providers, values, field
+   selections, imported sets -- in another order yields an accepted analysis iff the original does, with the same
+   lookups in the provider map and the very same planned call list.  (Permutation is symmetric, so rejection is
+   preserved as well.) *)
+Theorem C10_analysis_order_independent :
+  forall tyorder args out sc se id imports imports' provs provs' sprovs sprovs' vals vals' flds flds' binds pm cs,
+  Permutation.Permutation imports imports' -> Permutation.Permutation provs provs' ->
+  Permutation.Permutation sprovs sprovs' -> Permutation.Permutation vals vals' -> Permutation.Permutation flds flds' ->
+  analyze tyorder (RSet id imports provs sprovs vals flds binds) args out sc se = ROk pm cs ->
+  exists pm', analyze tyorder (RSet id imports' provs' sprovs' vals' flds' binds) args out sc se = ROk pm' cs /\
+              (forall t, look pm t = look pm' t).
+Proof. exact analyze_perm. Qed.
+Print Assumptions C10_analysis_order_independent.
+
+(* C10 (planner): solve is a function of the map's lookups, not of its insertion order *)
+Theorem C10_solve_depends_on_lookups_only : forall pm pm' : pmap entry,
+  (forall t, look pm t = look pm' t) -> Permutation.Permutation pm pm' ->
+  forall root args out, solve pm root args out = solve pm' root args out.
+Proof. exact solve_map_eq. Qed.
+Print Assumptions C10_solve_depends_on_lookups_only.
 
 (* ------------------------------------------------------------------ C09 *)
 Theorem C09_results : forall rs c e, func_output rs = FoOk c e <-> legal_results rs c e.
